@@ -104,7 +104,8 @@ fn merge_values(base: &mut Value, overlay: Value) {
             }
         }
         (Value::Array(base_array), Value::Array(overlay_array)) => {
-            let mut seen = HashSet::new();
+            // elements the base array already has are not appended again
+            let mut seen: HashSet<Value> = base_array.iter().cloned().collect();
             base_array.extend(
                 overlay_array
                     .into_iter()
